@@ -437,7 +437,10 @@ def run(ctx):
             ok = any(isinstance(b, ast.Assign) and same_expr(b.targets[0], f"atoms.coord[{iv}]") for b in st.body)
     # the same in one expression: the models are the conformers' positions in list order
     for st in ast.walk(fm):
-        if isinstance(st, ast.Assign) and len(st.targets) == 1 and same_expr(st.targets[0], "atoms.coord") and isinstance(st.value, ast.Call) \
+        # (assigned to the stack directly, or built under a local name that is what `atoms.coord` is assigned from)
+        if isinstance(st, ast.Assign) and len(st.targets) == 1 and (same_expr(st.targets[0], "atoms.coord") or isinstance(st.targets[0], ast.Name) and any(
+                isinstance(a_, ast.Assign) and len(a_.targets) == 1 and same_expr(a_.targets[0], "atoms.coord") and isinstance(a_.value, ast.Name)
+                and a_.value.id == st.targets[0].id for a_ in ast.walk(fm))) and isinstance(st.value, ast.Call) \
                 and call_name(st.value) in ("np.array", "np.stack", "np.asarray") and st.value.args and isinstance(st.value.args[0], ast.ListComp) \
                 and len(st.value.args[0].generators) == 1 and not st.value.args[0].generators[0].ifs:
             g_ = st.value.args[0].generators[0]
@@ -501,17 +504,42 @@ def run(ctx):
                for st in stmts(si)), "a key without value cannot be read back", si.lineno, nontrivial=False)
     # key grammar: what serialize emits is what the component regexes accept
     ks = sd.func("Metadata.Key.serialize")
+    # (a component may be read into a local first - `if (value := self.number) is not None:` - the placeholder then names the local)
+    _par = {}
+    for p_ in ast.walk(ks):
+        for ch_ in ast.iter_child_nodes(p_):
+            _par[id(ch_)] = p_
+
+    def _component_of(name_node):
+        cur = name_node
+        while id(cur) in _par:
+            cur = _par[id(cur)]
+            if isinstance(cur, ast.If):
+                for w_ in ast.walk(cur.test):
+                    if isinstance(w_, ast.NamedExpr) and w_.target.id == name_node.id and isinstance(w_.value, ast.Attribute) and dotted(w_.value.value) == "self":
+                        return w_.value.attr
+        return None
+
     def form(js):
         out = ""
         for v in js.values:
-            out += v.value if isinstance(v, ast.Constant) else "{" + (dotted(v.value) or "?").split(".")[-1] + "}"
+            if isinstance(v, ast.Constant):
+                out += v.value
+                continue
+            nm_ = (dotted(v.value) or "?").split(".")[-1]
+            if isinstance(v.value, ast.Name):
+                nm_ = _component_of(v.value)
+                ctx.need(nm_ is not None, f"the key component behind the placeholder `{v.value.id}` of Metadata.Key.serialize")
+            out += "{" + nm_ + "}"
         return out.strip()
 
     jss = [n for n in ast.walk(ks) if isinstance(n, ast.JoinedStr)]
     ctx.need(bool(jss), "the components of Metadata.Key.serialize written as f-strings (templates applied through str.format in a "
                         "comprehension cannot be decided here)")
     emitted = sorted(form(n) for n in jss)
-    own_sep = [isinstance(n.values[-1], ast.Constant) and n.values[-1].value.endswith(" ") for n in jss]
+    own_sep = [isinstance(n.values[-1], ast.Constant) and n.values[-1].value.endswith(" ")
+               or (isinstance(_par.get(id(n)), ast.BinOp) and isinstance(_par[id(n)].op, ast.Add) and _par[id(n)].left is n
+                   and isinstance(_par[id(n)].right, ast.Constant) and _par[id(n)].right.value == " ") for n in jss]
     common_sep = any(isinstance(n, ast.BinOp) and isinstance(n.op, ast.Add) and isinstance(n.right, ast.Constant) and n.right.value == " "
                      and isinstance(n.left, ast.Name) for n in ast.walk(ks)) or "' '.join(" in ast.unparse(ks)
     ctx.ob("R5.key-components", SDF, "Metadata.Key.serialize", str(emitted) + (" each + ' '" if all(own_sep) or common_sep else " separators: " + str(own_sep)),
